@@ -50,7 +50,7 @@ theorem wrap_length (c : Ciphers) (hc : c.Lawful) (kb : KB) (hw : kb.header.WF) 
       blocksDump kb.header.blocks bs = .ok (n, blocks) ∧
       s.length = 16 + blocks.length +
         2 * (2 + maskedLen kb.header key.length mask + (bs - (2 + maskedLen kb.header key.length mask) % bs)) + 2 * ml := by
-  obtain ⟨bs, ml, n, blocks, hdr, enc, mac, clear, hbs, hml, _, hbd, hhdr, hle, hs, henc, hmac, _, _, _⟩ :=
+  obtain ⟨bs, ml, n, blocks, hdr, enc, mac, clear, hbs, hml, _, hbd, hhdr, hle, hs, henc, hmac, _, _, _, _⟩ :=
     (wrap_facts c hc kb key mask entropy s h).facts
   refine ⟨bs, ml, n, blocks, hbs, hml, hbd, ?_⟩
   have hn : n ≤ 99 := by
@@ -89,7 +89,7 @@ theorem encrypted_bounds (c : Ciphers) (hc : c.Lawful) (kb : KB) (key : Bytes) (
     ∃ bs hdr enc mac, algoBs kb.header.versionId = some bs ∧ s = hdr ++ toHexU enc ++ toHexU mac ∧
       2 + maskedLen kb.header key.length mask < enc.length ∧
       enc.length ≤ 2 + maskedLen kb.header key.length mask + bs ∧ enc.length % bs = 0 := by
-  obtain ⟨bs, ml, n, blocks, hdr, enc, mac, clear, hbs, _, hbs8, _, _, _, hs, henc, _, _, _, _⟩ :=
+  obtain ⟨bs, ml, n, blocks, hdr, enc, mac, clear, hbs, _, hbs8, _, _, _, hs, henc, _, _, _, _, _⟩ :=
     (wrap_facts c hc kb key mask entropy s h).facts
   have hpos : 0 < bs := by rcases hbs8 with h | h <;> omega
   have hlt := Nat.mod_lt (2 + maskedLen kb.header key.length mask) hpos
